@@ -91,32 +91,32 @@ func init() {
 		"math.Ldexp":           extLdexp,
 
 		// byte scanning kernels
-		"internal/bytealg.IndexByte":       extIndexByte,
-		"internal/bytealg.IndexByteString": extIndexByte,
-		"internal/bytealg.Count":           extCountByte,
-		"internal/bytealg.CountString":     extCountByte,
-		"internal/bytealg.Equal":           extBytesEqual,
-		"internal/bytealg.Compare":         extBytesCompare,
-		"internal/bytealg.MakeNoZero":      extMakeNoZero,
-		"internal/bytealg.Index":           extIndexSub,
-		"internal/bytealg.IndexString":     extIndexSub,
-		"bytes.Equal":                      extBytesEqual,
-		"internal/abi.NoEscape":            func(fr *frame, a []value) value { return a[0] },
-		"internal/abi.Escape":              func(fr *frame, a []value) value { return a[0] },
-		"runtime.KeepAlive":                func(fr *frame, a []value) value { return nil },
-		"runtime.GC":                       func(fr *frame, a []value) value { return nil },
-		"runtime.Gosched":                  func(fr *frame, a []value) value { fr.i.schedPoint("gosched"); return nil },
-		"runtime.NumCPU":                   func(fr *frame, a []value) value { return 1 },
-		"runtime.GOMAXPROCS":               func(fr *frame, a []value) value { return 1 },
-		"runtime.SetFinalizer":             func(fr *frame, a []value) value { return nil },
-		"runtime.Stack":                    func(fr *frame, a []value) value { return 0 },
-		"runtime.Callers":                  func(fr *frame, a []value) value { return 0 },
-		"runtime.Caller":                   func(fr *frame, a []value) value { return tuple{uintptr(0), "", 0, false} },
-		"runtime/debug.SetGCPercent":       func(fr *frame, a []value) value { return 100 },
-		"internal/godebug.(*Setting).Value": func(fr *frame, a []value) value { return "" },
+		"internal/bytealg.IndexByte":                extIndexByte,
+		"internal/bytealg.IndexByteString":          extIndexByte,
+		"internal/bytealg.Count":                    extCountByte,
+		"internal/bytealg.CountString":              extCountByte,
+		"internal/bytealg.Equal":                    extBytesEqual,
+		"internal/bytealg.Compare":                  extBytesCompare,
+		"internal/bytealg.MakeNoZero":               extMakeNoZero,
+		"internal/bytealg.Index":                    extIndexSub,
+		"internal/bytealg.IndexString":              extIndexSub,
+		"bytes.Equal":                               extBytesEqual,
+		"internal/abi.NoEscape":                     func(fr *frame, a []value) value { return a[0] },
+		"internal/abi.Escape":                       func(fr *frame, a []value) value { return a[0] },
+		"runtime.KeepAlive":                         func(fr *frame, a []value) value { return nil },
+		"runtime.GC":                                func(fr *frame, a []value) value { return nil },
+		"runtime.Gosched":                           func(fr *frame, a []value) value { fr.i.schedPoint("gosched"); return nil },
+		"runtime.NumCPU":                            func(fr *frame, a []value) value { return 1 },
+		"runtime.GOMAXPROCS":                        func(fr *frame, a []value) value { return 1 },
+		"runtime.SetFinalizer":                      func(fr *frame, a []value) value { return nil },
+		"runtime.Stack":                             func(fr *frame, a []value) value { return 0 },
+		"runtime.Callers":                           func(fr *frame, a []value) value { return 0 },
+		"runtime.Caller":                            func(fr *frame, a []value) value { return tuple{uintptr(0), "", 0, false} },
+		"runtime/debug.SetGCPercent":                func(fr *frame, a []value) value { return 100 },
+		"internal/godebug.(*Setting).Value":         func(fr *frame, a []value) value { return "" },
 		"internal/godebug.(*Setting).IncNonDefault": func(fr *frame, a []value) value { return nil },
-		"unicode/utf8.DecodeRuneInString": extDecodeRune,
-		"unicode/utf8.DecodeRune":         extDecodeRune,
+		"unicode/utf8.DecodeRuneInString":           extDecodeRune,
+		"unicode/utf8.DecodeRune":                   extDecodeRune,
 
 		// os
 		"os.Getenv":    extGetenv,
@@ -124,57 +124,57 @@ func init() {
 		"os.Exit":      func(fr *frame, a []value) value { panic(targetRuntimeError("os.Exit called")) },
 
 		// errors / fmt
-		"errors.Is":     extErrorsIs,
-		"errors.As":     extErrorsAs,
-		"errors.Join":   nil,
-		"fmt.Errorf":    extErrorf,
-		"fmt.Sprintf":   extSprintf,
-		"fmt.Sprint":    extSprint,
-		"fmt.Println":   func(fr *frame, a []value) value { return tuple{0, iface{}} },
-		"fmt.Printf":    func(fr *frame, a []value) value { return tuple{0, iface{}} },
-		"fmt.Fprintf":   func(fr *frame, a []value) value { return tuple{0, iface{}} },
-		"fmt.Fprintln":  func(fr *frame, a []value) value { return tuple{0, iface{}} },
-		"fmt.Fprint":    func(fr *frame, a []value) value { return tuple{0, iface{}} },
-		"log.Printf":    func(fr *frame, a []value) value { return nil },
-		"log.Println":   func(fr *frame, a []value) value { return nil },
-		"log.Print":     func(fr *frame, a []value) value { return nil },
+		"errors.Is":             extErrorsIs,
+		"errors.As":             extErrorsAs,
+		"errors.Join":           nil,
+		"fmt.Errorf":            extErrorf,
+		"fmt.Sprintf":           extSprintf,
+		"fmt.Sprint":            extSprint,
+		"fmt.Println":           func(fr *frame, a []value) value { return tuple{0, iface{}} },
+		"fmt.Printf":            func(fr *frame, a []value) value { return tuple{0, iface{}} },
+		"fmt.Fprintf":           func(fr *frame, a []value) value { return tuple{0, iface{}} },
+		"fmt.Fprintln":          func(fr *frame, a []value) value { return tuple{0, iface{}} },
+		"fmt.Fprint":            func(fr *frame, a []value) value { return tuple{0, iface{}} },
+		"log.Printf":            func(fr *frame, a []value) value { return nil },
+		"log.Println":           func(fr *frame, a []value) value { return nil },
+		"log.Print":             func(fr *frame, a []value) value { return nil },
 		"(*log.Logger).Printf":  func(fr *frame, a []value) value { return nil },
 		"(*log.Logger).Println": func(fr *frame, a []value) value { return nil },
 		"(*log.Logger).Print":   func(fr *frame, a []value) value { return nil },
 		"(*log.Logger).Output":  func(fr *frame, a []value) value { return iface{} },
 
 		// sync
-		"(*sync.Mutex).Lock":      extMutexLock,
-		"(*sync.Mutex).Unlock":    extMutexUnlock,
-		"(*sync.Mutex).TryLock":   extMutexTryLock,
-		"(*sync.RWMutex).Lock":    extRWLock,
-		"(*sync.RWMutex).Unlock":  extRWUnlock,
-		"(*sync.RWMutex).RLock":   extRWRLock,
-		"(*sync.RWMutex).RUnlock": extRWRUnlock,
-		"(*sync.WaitGroup).Add":   extWGAdd,
-		"(*sync.WaitGroup).Done":  extWGDone,
-		"(*sync.WaitGroup).Wait":  extWGWait,
-		"(*sync.Pool).Get":        extPoolGet,
-		"(*sync.Pool).Put":        func(fr *frame, a []value) value { return nil },
+		"(*sync.Mutex).Lock":                  extMutexLock,
+		"(*sync.Mutex).Unlock":                extMutexUnlock,
+		"(*sync.Mutex).TryLock":               extMutexTryLock,
+		"(*sync.RWMutex).Lock":                extRWLock,
+		"(*sync.RWMutex).Unlock":              extRWUnlock,
+		"(*sync.RWMutex).RLock":               extRWRLock,
+		"(*sync.RWMutex).RUnlock":             extRWRUnlock,
+		"(*sync.WaitGroup).Add":               extWGAdd,
+		"(*sync.WaitGroup).Done":              extWGDone,
+		"(*sync.WaitGroup).Wait":              extWGWait,
+		"(*sync.Pool).Get":                    extPoolGet,
+		"(*sync.Pool).Put":                    func(fr *frame, a []value) value { return nil },
 		"(*sync/atomic.Value).Load":           extAVLoad,
 		"(*sync/atomic.Value).Store":          extAVStore,
 		"(*sync/atomic.Value).Swap":           extAVSwap,
 		"(*sync/atomic.Value).CompareAndSwap": extAVCas,
 
 		// time
-		"time.Now":               extTimeNow,
-		"time.Since":             extTimeSince,
-		"time.Until":             extTimeUntil,
-		"time.Sleep":             extTimeSleep,
-		"time.NewTimer":          extNewTimer,
-		"time.NewTicker":         extNewTicker,
-		"time.After":             extTimeAfter,
-		"time.AfterFunc":         extAfterFunc,
-		"(*time.Timer).Stop":     extTimerStop,
-		"(*time.Timer).Reset":    extTimerReset,
-		"(*time.Ticker).Stop":    extTimerStop,
-		"(*time.Ticker).Reset":   extTimerReset,
-		"time.runtimeNano":       func(fr *frame, a []value) value { return fr.i.clockNow() },
+		"time.Now":             extTimeNow,
+		"time.Since":           extTimeSince,
+		"time.Until":           extTimeUntil,
+		"time.Sleep":           extTimeSleep,
+		"time.NewTimer":        extNewTimer,
+		"time.NewTicker":       extNewTicker,
+		"time.After":           extTimeAfter,
+		"time.AfterFunc":       extAfterFunc,
+		"(*time.Timer).Stop":   extTimerStop,
+		"(*time.Timer).Reset":  extTimerReset,
+		"(*time.Ticker).Stop":  extTimerStop,
+		"(*time.Ticker).Reset": extTimerReset,
+		"time.runtimeNano":     func(fr *frame, a []value) value { return fr.i.clockNow() },
 	} {
 		if v != nil {
 			externals[k] = v
